@@ -149,6 +149,7 @@ func corpus(perDir int) []cfile {
 		}
 		if ti < 2 || skipExt[strings.ToLower(filepath.Ext(p))] || strings.HasPrefix(info.Name(), ".") ||
 			info.Name() == "Makefile" || strings.HasPrefix(info.Name(), "README") ||
+			strings.Contains(info.Name(), "bigzero") || // decompression bomb (the suite decodes it with uncompress=false only)
 			strings.ContainsAny(rel, " \t|@,;") || info.Size() == 0 || info.Size() > maxFileSize || !info.Mode().IsRegular() {
 			return nil
 		}
